@@ -2,7 +2,7 @@
 //@ assume: T6 rewrites: the two `let x = &mut ext.field;` re-borrows are folded into their uses (`extension.` => `ext.extension.`, `header_extension` => `ext.header_extension`); `&dyn Fn(..)` => `&Allowed`; `.map_err(..)?` => `?`; `vec![]` => Vec::new(); `fork_hashes.reverse()` => reversal helper; `for h in fork_hashes {` => Verus iterator loop; lifetimes dropped
 //@ assume: termination of the two walks is NOT proved (depends on stored heights decreasing along prev links): exec_allows_no_decreases_clause
 //@ assume: decided here: pipe::rewind_and_apply_fork (the "on every fork" machinery of C02/C03/C06) first prepares the header MMR for the fork (contract of rewind_and_apply_header_fork, verified in the same file), rewinds the txhashset extension to the first ancestor of the CURRENT HEAD that is on that header chain, and then re-applies EXACTLY the stored blocks on the path from that fork point (exclusive) to `header` (inclusive), oldest first, each one only after coinbase maturity, UTXO validation and block sums were re-verified on this fork; it returns that fork point
-//@ assumed_items: 7
+//@ assumed_items: 8
 //@ fns: pipe::rewind_and_apply_fork
 //@ include: header_fork.verus.rs
 
@@ -23,7 +23,16 @@ impl Extension {
     #[verifier::external_body]
     pub fn rewind(&mut self, h: &BlockHeader, batch: &Batch) -> (r: Result<(), Error>)
         ensures r.is_ok() ==> final(self).rewound_to@ == Some(*h) && final(self).applied@ == Seq::<Block>::empty() { unimplemented!() }
+    /// offered so that a variant re-applying fork blocks WITHOUT apply_block_to_txhashset's root / size validation is decided:
+    /// such a block does not count as applied-and-validated
+    #[verifier::external_body]
+    pub fn apply_block<H: HxArg>(&mut self, b: &Block, header_ext: H, batch: &mut Batch) -> (r: Result<(), Error>)
+        ensures final(self).rewound_to@ == old(self).rewound_to@, final(self).applied@ == old(self).applied@, final(batch).sp_head_header() == old(batch).sp_head_header() { unimplemented!() }
 }
+pub trait HxArg {}
+impl HxArg for HeaderExtension {}
+impl<'a> HxArg for &'a HeaderExtension {}
+impl<'a> HxArg for &'a mut HeaderExtension {}
 pub struct ExtensionPair { pub header_extension: HeaderExtension, pub extension: Extension }
 #[verifier::external_body]
 fn verify_coinbase_maturity(b: &Block, ext: &ExtensionPair, batch: &Batch) -> (r: Result<(), Error>) ensures r.is_ok() ==> sp_mature(*b) { unimplemented!() }
